@@ -525,6 +525,34 @@ Proof.
   destruct (Rlt_dec (max_amp l) (SD c)); [reflexivity|contradiction].
 Qed.
 
+(* ---- curves with scatter whose native failure probability is not 50 %: cycles() / Fatigue.damage() read the curve at 50 % (c50),
+   MinerHaibach.lifetime_multiple reads the knee point of the native curve (cn) *)
+Lemma lm_haibach_ext c c' l : SD c = SD c' -> k1 c = k1 c' -> lm_haibach c l = lm_haibach c' l.
+Proof. intros H1 H2. unfold lm_haibach, haibach_sum1, haibach_sum2. rewrite H1, H2. reflexivity. Qed.
+
+(* same knee point (no scatter, or native probability 50 %, or the repaired code): nothing changes *)
+Theorem gassner_haibach_split_same_knee c50 cn l : SD cn = SD c50 -> k1 cn = k1 c50 ->
+  gassner_cycles_split lm_haibach c50 cn l = gassner_cycles lm_haibach c50 l.
+Proof.
+  intros H1 H2. unfold gassner_cycles_split, gassner_cycles. rewrite (lm_haibach_ext cn c50 l H1 H2). reflexivity.
+Qed.
+
+(* the general value: damage after the code's Gassner cycles = A(knee of the native curve) / A(knee at 50 %) *)
+Theorem gassner_haibach_split_value c50 cn l : curve_ok c50 -> coll_ok l -> 0 < max_occ l -> SD c50 <= max_amp l ->
+  exists Ng, gassner_cycles_split lm_haibach c50 cn l = Some Ng /\
+             damage_sum (miner_haibach c50) (apply_for Ng l) * lm_haibach c50 l = lm_haibach cn l.
+Proof.
+  intros Hc Hl Hm Hlev.
+  destruct (gassner_haibach_damage_one c50 l Hc Hl Hm Hlev) as [Ng [E1 E2]].
+  unfold gassner_cycles in E1. unfold gassner_cycles_split.
+  destruct (cycles c50 (max_amp l)) as [N|]; [|discriminate].
+  injection E1 as E1. exists (N * lm_haibach cn l). split; [reflexivity|].
+  unfold apply_for in *. rewrite damage_proportional in *. subst Ng.
+  transitivity (lm_haibach cn l * (N * lm_haibach c50 l / total l * damage_sum (miner_haibach c50) l)).
+  - unfold Rdiv. ring.
+  - rewrite E2. ring.
+Qed.
+
 (* ------------------------------------------------------------------ effective damage sum *)
 Theorem effective_damage_in_range A : 3 / 10 <= eds A <= 1.
 Proof.
@@ -634,5 +662,64 @@ Proof.
   { rewrite E2, H1, H2. simpl k1. rewrite npow_pos by lra.
     replace (Rpower (250 / 350) 5) with (Rpower (250 / 350) (INR 5)) by (f_equal; simpl; ring).
     rewrite Rpower_pow by lra. f_equal. field. }
+  split; [exact E3|]. rewrite E3. lra.
+Qed.
+
+(* ---- Miner-Haibach for a curve whose knee point at 50 % (2) differs from the knee point of the native curve (1): a member between
+   the two knee points is counted with full damage in the lifetime multiple and with reduced damage in Fatigue.damage *)
+Definition ex_c50 : curve := mkCurve 2 None 1 2.
+Definition ex_cn : curve := mkCurve 2 None 1 1.
+Definition ex_two : coll := [(1, 1); (2, 1)].
+
+Lemma ex_two_max : max_occ ex_two = 2 /\ max_amp ex_two = 2.
+Proof. unfold ex_two. split; max_compute. Qed.
+
+Lemma npow_nat x (n : nat) : 0 < x -> npow x (INR n) = x ^ n.
+Proof. intros H. rewrite npow_pos by assumption. apply Rpower_pow. assumption. Qed.
+
+Lemma npow_one_base y : npow 1 y = 1.
+Proof. rewrite npow_pos by lra. unfold Rpower. rewrite ln_1, Rmult_0_r. apply exp_0. Qed.
+
+Ltac dec_compute :=
+  repeat match goal with
+         | |- context [Rlt_dec ?a ?b] => destruct (Rlt_dec a b); try lra
+         end.
+
+Lemma ex_lm_native : lm_haibach ex_cn ex_two = 8 / 5.
+Proof.
+  destruct ex_two_max as [_ Hm]. unfold lm_haibach, haibach_sum1, haibach_sum2. cbv zeta. rewrite Hm.
+  cbv [ex_two ex_cn total map Rsum fst snd k1 SD]. dec_compute.
+  set (z := npow (1 / 2) (1 - 2)).
+  replace (2 / 2) with 1 by field. rewrite npow_one_base.
+  replace 2 with (INR 2) at 2 by (simpl; ring). rewrite npow_nat by lra.
+  simpl INR. field.
+Qed.
+
+Lemma ex_lm_50 : lm_haibach ex_c50 ex_two = 16 / 9.
+Proof.
+  destruct ex_two_max as [_ Hm]. unfold lm_haibach, haibach_sum1, haibach_sum2. cbv zeta. rewrite Hm.
+  cbv [ex_two ex_c50 total map Rsum fst snd k1 SD]. dec_compute.
+  replace (2 / 2) with 1 by field. rewrite !npow_one_base.
+  replace (2 * 2 - 1) with (INR 3) by (simpl; ring). rewrite npow_nat by lra.
+  field.
+Qed.
+
+Theorem gassner_haibach_native_knee_refuted :
+  exists c50 cn l, curve_ok c50 /\ curve_ok cn /\ k1 cn = k1 c50 /\ coll_ok l /\ 0 < max_occ l /\ SD c50 <= max_amp l /\
+    exists Ng, gassner_cycles_split lm_haibach c50 cn l = Some Ng /\
+               damage_sum (miner_haibach c50) (apply_for Ng l) = 9 / 10 /\
+               damage_sum (miner_haibach c50) (apply_for Ng l) <> 1.
+Proof.
+  exists ex_c50, ex_cn, ex_two. destruct ex_two_max as [H1 H2].
+  assert (Hc : curve_ok ex_c50) by (unfold curve_ok, ex_c50; simpl; lra).
+  assert (Hl : coll_ok ex_two) by (unfold coll_ok, ex_two; repeat constructor; simpl; lra).
+  assert (Hm : 0 < max_occ ex_two) by lra.
+  assert (Hlev : SD ex_c50 <= max_amp ex_two) by (rewrite H2; simpl; lra).
+  split; [exact Hc|]. split; [unfold curve_ok, ex_cn; simpl; lra|]. split; [reflexivity|].
+  split; [exact Hl|]. split; [exact Hm|]. split; [exact Hlev|].
+  destruct (gassner_haibach_split_value ex_c50 ex_cn ex_two Hc Hl Hm Hlev) as [Ng [E1 E2]].
+  exists Ng. split; [exact E1|].
+  rewrite ex_lm_native, ex_lm_50 in E2.
+  assert (E3 : damage_sum (miner_haibach ex_c50) (apply_for Ng ex_two) = 9 / 10) by lra.
   split; [exact E3|]. rewrite E3. lra.
 Qed.
